@@ -7,6 +7,7 @@ package main
 import (
 	"go/constant"
 	"go/types"
+	"io/fs"
 	"math"
 	"math/bits"
 	"path/filepath"
@@ -120,6 +121,15 @@ func (ip *Interp) model2(fn *ssa.Function, name string, args []AV) (AV, bool) {
 			return TupleV{kInt(0), ip.errVal(err.Error())}, true
 		}
 		return TupleV{kInt(int64(v)), NilV{}}, true
+	// ---- io/fs.FileMode
+	case "(io/fs.FileMode).IsDir":
+		return kBool(avUint(args[0])&(1<<31) != 0), true
+	case "(io/fs.FileMode).IsRegular":
+		return kBool(fs.FileMode(avUint(args[0])).IsRegular()), true
+	case "(io/fs.FileMode).Type":
+		return kUint(uint64(fs.FileMode(avUint(args[0])).Type())), true
+	case "(io/fs.FileMode).Perm":
+		return kUint(uint64(fs.FileMode(avUint(args[0])).Perm())), true
 	// ---- math/bits
 	case "math/bits.OnesCount64":
 		return kInt(int64(bits.OnesCount64(avUint(args[0])))), true
